@@ -166,7 +166,7 @@ fn user_action(rng : &mut Rng, pr : &Profile, scn : &mut Scn, rules : &mut Vec<X
     }
 }
 
-pub fn random_scenario(id : String, seed : u64, pr : &Profile) -> Vec<Value>
+pub fn random_scenario(id : String, seed : u64, pr : &Profile, prname : &str) -> Vec<Value>
 {
     let mut rng = Rng::new(seed);
     let (mut rules, leaves) = gen_rules(&mut rng, pr);
@@ -175,7 +175,7 @@ pub fn random_scenario(id : String, seed : u64, pr : &Profile) -> Vec<Value>
     let added : Vec<String> = (0..rules.len()).flat_map(|k| vec![format!("n{}x0", k), format!("n{}x1", k)]).collect();
     for a in added.iter() { extra.push(a.as_str()); }
     let ord = ord_of(&vec![rules.clone()], &extra);
-    let mut scn = Scn::new(&id, ord, pr.tick, pr.twin, json!({"seed" : seed}));
+    let mut scn = Scn::new(&id, ord, pr.tick, pr.twin, json!({"seed" : seed, "profile" : prname}));
     let serial = rng.chance(1, 3);
     scn.check_serial = pr.serial_ref && !serial;
     scn.set_rules(&rules);
